@@ -11,6 +11,11 @@ import json, os, sys
 ROOT = os.path.dirname(os.path.dirname(os.path.abspath(__file__)))
 props = [json.loads(l)["id"] for l in open(os.path.join(ROOT, "properties.jsonl")) if l.strip()]
 claims = json.load(open(os.path.join(ROOT, "tools", "claims.json")))
+# rule names per property as last recorded from the evidence files (tools/dump_rules.py)
+try:
+    rules = json.load(open(os.path.join(ROOT, "tools", "rules.json")))
+except Exception:
+    rules = {}
 
 ENV = "GOFLAGS=-mod=mod GOPROXY=off GOSUMDB=off GOTOOLCHAIN=local"
 checks = []
@@ -30,7 +35,7 @@ for pid in props:
         "engine": "mcpcheck",
         "level_claimed": {
             "category": "other",
-            "text": c["text"],
+            "text": c["text"] + (" Rules evaluated on every run: " + ", ".join(rules[pid]) + "." if pid in rules else ""),
             "design_ref": c.get("design_ref", "DESIGN.md §4 " + pid),
         },
         "level_note": c["note"],
